@@ -174,3 +174,40 @@ func oddHostname(po *prng.R) string {
 	}
 	return ""
 }
+
+
+// EHLO names a client may give. No endpoint of maddy validates the argument of EHLO/HELO/LHLO, the
+// session copies it into MsgMetadata.Conn.Hostname and the queue's failure report quotes it as
+// Received-From-MTA; whatever the client said there, the recipient still has to end in exactly one
+// terminal outcome. "-" = message without connection metadata (generated locally / submission).
+var ehloNames = []struct{ Name, Class string }{
+	{"client.example.net", "plain"}, {"client.example.net", "plain"}, {"CLIENT.Example.NET.", "case-trailing-dot"},
+	{"[192.0.2.10]", "ipv4-literal"}, {"[IPv6:2001:db8::10]", "ipv6-literal"}, {"192.0.2.10", "bare-ip"},
+	{"mail_gw1.example.com", "underscore"}, {"localhost", "single-label"}, {"-gw-.example.com", "hyphens"},
+	{"\u043f\u043e\u0447\u0442\u0430.example", "u-label"}, {"xn--80a1acny.example", "a-label"}, {"XN--80A1ACNY.example", "upper-a-label"},
+	{"xn--999999999.example", "invalid-a-label"}, {"xn--0", "invalid-a-label"}, {"xn--.example", "invalid-a-label"}, {"xn--a-ecp.ru.xn--", "invalid-a-label"},
+	{"a..example", "empty-label"}, {".example", "empty-label"},
+	{"l" + strings.Repeat("o", 70) + "ng.example", "label-over-63"}, {strings.Repeat("a2345678.", 30) + "example", "name-over-253"},
+	{"caf\xe9.example", "invalid-utf8"}, {"gw 1.example", "space"}, {"ab\u00adcd.example", "soft-hyphen"},
+}
+
+func drawEhlo(seed uint64, id string) string {
+	h := uint64(1469598103934665603)
+	for i := 0; i < len(id); i++ {
+		h = (h ^ uint64(id[i])) * 1099511628211
+	}
+	pe := prng.New(seed, h, "c01-ehlo")
+	if !pe.Chance(1, 3) {
+		return "-"
+	}
+	return prng.Pick(pe, ehloNames).Name
+}
+
+func ehloClass(name string) string {
+	for _, e := range ehloNames {
+		if e.Name == name {
+			return e.Class
+		}
+	}
+	return "other"
+}
